@@ -253,10 +253,6 @@ pub struct RepoHandle {
 }
 
 impl RepoHandle {
-    /// Repository options of every harness repository: never use the local rustic cache (`~/.cache/rustic`).
-    pub fn default_opts() -> RepositoryOptions {
-        RepositoryOptions::default().no_cache(true)
-    }
     pub fn backends(&self) -> RepositoryBackends {
         RepositoryBackends::new(
             Arc::new(self.be.clone()),
